@@ -480,6 +480,14 @@ func (m *Model) Restarted(headInit bool, headMaxT, blocksMaxT int64) {
 			}
 		}
 	}
+	pseudo := false // a series' newest in-order sample is one of the uncertain out-of-order ones
+	for _, s := range m.Series {
+		for t, p := range s.Pts {
+			if (p.WasOOO || p.OOOHead) && t >= m.Head.MinValid && s.HasLast && t == s.LastT && s.Uncertain {
+				pseudo = true
+			}
+		}
+	}
 	maxT := int64(math.MinInt64)
 	any := false
 	for _, s := range m.Series {
@@ -497,12 +505,15 @@ func (m *Model) Restarted(headInit bool, headMaxT, blocksMaxT int64) {
 	}
 	m.Head.Init = any
 	switch {
-	case any:
+	case any && !pseudo:
 		m.Head.MaxT = maxT
 	case headInit:
+		// nothing in-order is known to be left (or only samples that may have been replayed
+		// in-order): the head's range is what replayed out-of-order data made it
 		m.Head.Init = true
 		m.Head.MaxT = headMaxT
 	default:
+		m.Head.Init = false
 		m.Head.MaxT = math.MinInt64
 	}
 }
